@@ -7,6 +7,7 @@ import (
 	"encoding/hex"
 	"encoding/json"
 	"fmt"
+	"math/rand"
 	"os"
 	"os/exec"
 	"path/filepath"
@@ -18,13 +19,41 @@ import (
 
 	"github.com/tetratelabs/wazero"
 	"github.com/tetratelabs/wazero/internal/filecache"
+	"github.com/tetratelabs/wazero/internal/leb128"
+	"github.com/tetratelabs/wazero/internal/testing/dwarftestdata"
 	"github.com/tetratelabs/wazero/internal/wasm"
 	"github.com/tetratelabs/wazero/verifharness/common"
 	"github.com/tetratelabs/wazero/verifharness/wb"
 )
 
 // module k1: 3 functions; k2: 40 functions; k3: 12 functions with loops. run(x) sums all of them.
+// debugSections returns the .debug_* custom sections of a real binary with DWARF line information.
+func debugSections() []byte {
+	bin := dwarftestdata.ZigWasm
+	var out []byte
+	for p := 8; p < len(bin); {
+		id := bin[p]
+		size, n, err := leb128.LoadUint32(bin[p+1:])
+		if err != nil {
+			break
+		}
+		end := p + 1 + int(n) + int(size)
+		if id == 0 {
+			nameLen, m, _ := leb128.LoadUint32(bin[p+1+int(n):])
+			name := string(bin[p+1+int(n)+int(m) : p+1+int(n)+int(m)+int(nameLen)])
+			if strings.HasPrefix(name, ".debug_") {
+				out = append(out, bin[p:end]...)
+			}
+		}
+		p = end
+	}
+	return out
+}
+
 func moduleBytes(k string) []byte {
+	if k == "k4" { // k1 with DWARF sections: the compiled entry then carries a source map (and ends with it)
+		return append(moduleBytes("k1"), debugSections()...)
+	}
 	n := 3
 	if k == "k2" {
 		n = 40
@@ -488,7 +517,7 @@ func Trunc(args []string) {
 	defer os.RemoveAll(base)
 	stride, _ := strconv.Atoi(common.Arg(args, "-stride", "1"))
 	id := 0
-	for _, k := range []string{"k1", "k3"} {
+	for _, k := range []string{"k1", "k3", "k4"} {
 		rel, ref := reference(base, k)
 		try := func(name string, content []byte, wantFresh bool) {
 			res := common.Result{ID: id, OK: true}
@@ -519,6 +548,9 @@ func Trunc(args []string) {
 		}
 		for n := 0; n < len(ref); n += stride {
 			region := "truncated"
+			if k == "k4" && n < len(ref)-96 && n%29 != 0 { // the entry with a source map: every length near the end, a stride elsewhere
+				continue
+			}
 			try(region, ref[:n], false)
 		}
 		// version edits: header is magic(6) | len(1) | version | ...
@@ -546,7 +578,7 @@ func Determinism(args []string) {
 	base, _ := os.MkdirTemp(os.Getenv("VERIF_WORK"), "fcd")
 	defer os.RemoveAll(base)
 	id := 0
-	for _, k := range []string{"k1", "k2", "k3"} {
+	for _, k := range []string{"k1", "k2", "k3", "k4"} {
 		res := common.Result{ID: id, OK: true}
 		id++
 		rel0, ref0 := reference(base, k)
@@ -572,6 +604,74 @@ func Determinism(args []string) {
 		}
 		common.Emit(res)
 	}
+	common.Flush()
+}
+
+// ConcurrentModules is `driver fc-conc -rounds N`: DIFFERENT modules compiled concurrently by one process into one cache
+// directory; every entry must be byte-identical to the one a lone compilation of its module produces (determinism also
+// means: what is stored under a module's key is that module's code). The hook at "after-create" delays the copy a little
+// so that serialisation of one module and the writing of another overlap.
+func ConcurrentModules(args []string) {
+	rounds, _ := strconv.Atoi(common.Arg(args, "-rounds", "25"))
+	base, _ := os.MkdirTemp(os.Getenv("VERIF_WORK"), "fcc")
+	defer os.RemoveAll(base)
+	keys := []string{"k1", "k2", "k3", "k4"}
+	refs := map[string][]byte{}
+	rels := map[string]string{}
+	for _, k := range keys {
+		rels[k], refs[k] = reference(base, k)
+	}
+	filecache.VerifHook = func(point string) {
+		if point == "after-create" {
+			time.Sleep(time.Duration(200+rand.Intn(1800)) * time.Microsecond)
+		}
+	}
+	defer func() { filecache.VerifHook = nil }()
+	res := common.Result{ID: 0, OK: true}
+	ctx := context.Background()
+	for r := 0; r < rounds; r++ {
+		dir := filepath.Join(base, fmt.Sprintf("c%d", r))
+		_ = os.MkdirAll(dir, 0o755)
+		cache, err := wazero.NewCompilationCacheWithDir(dir)
+		if err != nil {
+			common.Fatalf("cache: %v", err)
+		}
+		rt := wazero.NewRuntimeWithConfig(ctx, wazero.NewRuntimeConfigCompiler().WithCompilationCache(cache))
+		var wg sync.WaitGroup
+		var mu sync.Mutex
+		for rep := 0; rep < 2; rep++ {
+			for _, k := range keys {
+				wg.Add(1)
+				go func(k string) {
+					defer wg.Done()
+					if _, err := rt.CompileModule(ctx, moduleBytes(k)); err != nil {
+						mu.Lock()
+						res.AddFail("concurrent-modules#compile", k+": "+err.Error())
+						mu.Unlock()
+					}
+				}(k)
+			}
+		}
+		wg.Wait()
+		rt.Close(ctx)
+		cache.Close(ctx)
+		fin, _ := entries(dir)
+		for _, k := range keys {
+			b, ok := fin[filepath.Join(dir, rels[k])]
+			if !ok {
+				res.AddFail("concurrent-modules#missing", fmt.Sprintf("round %d: no entry for %s", r, k))
+			} else if !bytes.Equal(b, refs[k]) {
+				other := "none of the modules"
+				for _, k2 := range keys {
+					if bytes.Equal(b, refs[k2]) {
+						other = k2
+					}
+				}
+				res.AddFail("concurrent-modules#bytes", fmt.Sprintf("round %d: the entry under the key of %s differs from a lone compilation of %s (%d vs %d bytes; it equals the entry of %s)", r, k, k, len(b), len(refs[k]), other))
+			}
+		}
+	}
+	common.Emit(res)
 	common.Flush()
 }
 
